@@ -344,7 +344,14 @@ func c02Graphs(c *core.Ctx, sc *impl.Scratch, fc string, foi string, seq *int) {
 		np := 3 + ch.Choose(maxP-2)
 		var rels []fo.Expr
 		for k := 0; k < nStmts; k++ {
-			switch ch.Choose(7) {
+			switch ch.Choose(8) {
+			case 7: // pi < pj: an ordering between two parameters that something else has to ground (after seed C02i)
+				i := ch.Choose(np)
+				j := ch.Choose(np)
+				if i == j {
+					ch.Skip("a parameter compared with itself")
+				}
+				rels = append(rels, fo.BinOp{Op: "<", L: V(i), R: V(j)})
 			case 5: // slice.Length pi: a GENERIC call binds pi to a structured type with a fresh inner variable
 				rels = append(rels, fo.App{Fn: "slice.Length", Args: []fo.Expr{V(ch.Choose(np))}})
 			case 6: // frt.Snd pi: pi is a pair of two fresh variables
@@ -384,7 +391,7 @@ func c02Graphs(c *core.Ctx, sc *impl.Scratch, fc string, foi string, seq *int) {
 		f := &c02Func{choices: nil, fc: &fo.FuncCase{Def: fd, Used: map[string]int{"constraint-graph": 1}}}
 		in := c02Inferer(foi)
 		ft, err := in.InferFunc(fd)
-		if err != nil || in.ArithUndetermined() {
+		if err != nil || in.ArithUndetermined() || in.ArithNonScalar() {
 			ch.Skip("out of domain")
 		}
 		*seq++
